@@ -20,19 +20,23 @@ type cscenario struct {
 	Name       string     `json:"name"`
 	Preload    int        `json:"preload"`     // 30-byte messages appended first: two per data page
 	PreConsume int        `json:"pre_consume"` // consume calls before the concurrent phase
-	PreAck     int64      `json:"pre_ack"`     // ack before the concurrent phase (-1: none)
+	PreAck     int64      `json:"pre_ack"`     // ack + sync before the concurrent phase (-1: none)
 	Threads    [][]string `json:"threads"`
+	BoundQ     int        `json:"bound_quick"`    // preemption bound in the quick tier (-1 = every schedule)
+	BoundT     int        `json:"bound_thorough"` // preemption bound in the thorough tier
 }
 
+// measured sizes (schedules): c2|a2 112k, c2|a-in,a-above 46k unbounded; c2|a2/pre1 20k with <=5 preemptions,
+// ~3.5M unbounded (c2|a-hi,a-lo alike); the 3-thread scenarios 0.5k-82k with <=3 preemptions.
 var cscenarios = []cscenario{
-	{"c2|a2", 3, 0, -1, [][]string{{"consume", "consume"}, {"ack:0", "ack:1"}}},
-	{"c2|a2/pre1", 3, 1, -1, [][]string{{"consume", "consume"}, {"ack:0", "ack:1"}}},
-	{"c2|a-in,a-above", 2, 0, -1, [][]string{{"consume", "consume"}, {"ack:1", "ack:5"}}},
-	{"c2|a-hi,a-lo", 3, 1, -1, [][]string{{"consume", "consume"}, {"ack:1", "ack:0"}}},
-	{"c|a|sync", 3, 1, -1, [][]string{{"consume"}, {"ack:0"}, {"sync"}}},
-	{"c|c|put", 1, 0, -1, [][]string{{"consume"}, {"consume"}, {"put"}}},
-	{"c|a2|sync,gc", 3, 2, 0, [][]string{{"consume"}, {"ack:1", "ack:2"}, {"sync", "gc"}}},
-	{"c2|a2|sync", 3, 1, -1, [][]string{{"consume", "consume"}, {"ack:0", "ack:1"}, {"sync"}}},
+	{"c|a|sync", 3, 1, -1, [][]string{{"consume"}, {"ack:0"}, {"sync"}}, 3, 5},
+	{"c|c|put", 1, 0, -1, [][]string{{"consume"}, {"consume"}, {"put"}}, 3, 4},
+	{"c|a2|sync,gc", 3, 2, 0, [][]string{{"consume"}, {"ack:1", "ack:2"}, {"sync", "gc"}}, 3, 4},
+	{"c2|a2|sync", 3, 1, -1, [][]string{{"consume", "consume"}, {"ack:0", "ack:1"}, {"sync"}}, 3, 4},
+	{"c2|a-hi,a-lo", 3, 1, -1, [][]string{{"consume", "consume"}, {"ack:1", "ack:0"}}, 5, -1},
+	{"c2|a-in,a-above", 2, 0, -1, [][]string{{"consume", "consume"}, {"ack:1", "ack:5"}}, -1, -1},
+	{"c2|a2", 3, 0, -1, [][]string{{"consume", "consume"}, {"ack:0", "ack:1"}}, -1, -1},
+	{"c2|a2/pre1", 3, 1, -1, [][]string{{"consume", "consume"}, {"ack:0", "ack:1"}}, 5, -1},
 }
 
 type cop struct {
@@ -401,19 +405,23 @@ func runConc(f *vevid.Flags, rep *vevid.Report, r replay) {
 		rep.Extra["replay_failures_of_5"] = fails
 		return
 	}
-	// 2-thread scenarios: every schedule; 3-thread scenarios: preemption bound
-	bound3 := 2
-	if f.Thorough() {
-		bound3 = 3
+	bounds := map[string]int{}
+	for _, sc := range cscenarios {
+		bounds[sc.Name] = sc.BoundQ
+		if f.Thorough() {
+			bounds[sc.Name] = sc.BoundT
+		}
 	}
-	rep.Bounds["preemption_bound_2_threads"] = "unbounded (every schedule)"
-	rep.Bounds["preemption_bound_3_threads"] = bound3
-	rep.Rule = fmt.Sprintf("scenarios on ONE consumer group of a real FanOutQueue (rewritten pkg/queue, pkg/queue/page: every lock / atomic / condition operation is a scheduling point): consumer thread (1-2 Consume) vs acker thread (2 Ack, in range / above consumed / below ack), optionally a third thread (Sync, GC, second consumer, appender); 2-thread scenarios: every schedule, 3-thread scenarios: every schedule with <=%d preemptions; per-instant invariants before and after every call, linearizability of the call/return history against the sequential model by brute force, read-back of (queue ack, appended], close/reopen. distinct_nontrivial = schedules with >=1 scheduling decision (all distinct by construction)", bound3)
+	rep.Bounds["preemption_bound_per_scenario(-1=every schedule)"] = bounds
+	rep.Rule = "scenarios on ONE consumer group of a real FanOutQueue (rewritten pkg/queue, pkg/queue/page: every lock / atomic / condition operation is a scheduling point): consumer thread (1-2 Consume) vs acker thread (1-2 Ack: in range / above consumed / below ack), optionally a third thread (Sync, Sync+GC, second consumer + appender); per scenario every schedule, or every schedule within the stated preemption bound; per-instant invariants before and after every call, consecutive hand-out, linearizability of the call/return history against the sequential model by brute force, read-back of (queue ack, appended], close/reopen. distinct_nontrivial = schedules with >=1 scheduling decision (all distinct by construction)"
 	for si, sc := range cscenarios {
 		sc := sc
-		bound := -1
-		if len(sc.Threads) > 2 {
-			bound = bound3
+		bound := bounds[sc.Name]
+		if v := os.Getenv("C06_BOUND"); v != "" { // debugging / sizing
+			bound, _ = strconv.Atoi(v)
+		}
+		if v := os.Getenv("C06_SCEN"); v != "" && v != sc.Name {
+			continue
 		}
 		e := &vsched.Explorer{Bound: bound, Horizon: 200000, Body: cbody(sc), Shard: f.Shard, Shards: f.Shards, Deadline: f.Deadline}
 		e.Check = func(x *vsched.Result) {
